@@ -67,6 +67,7 @@ func (f *frame) ssetSliceLit(x *ssa.Slice, res Val) {
 		return
 	}
 	set := map[string]string{}
+	vals := map[string][]string{}
 	n := 0
 	for _, ref := range *al.Referrers() {
 		ia, ok := ref.(*ssa.IndexAddr)
@@ -83,6 +84,7 @@ func (f *frame) ssetSliceLit(x *ssa.Slice, res Val) {
 				return
 			}
 			set[k] = "true"
+			vals[k] = append(vals[k], f.val(st.Val).T)
 			n++
 		}
 	}
@@ -93,6 +95,90 @@ func (f *frame) ssetSliceLit(x *ssa.Slice, res Val) {
 		f.sset = map[string]map[string]string{}
 	}
 	f.sset[res.T] = set
+	f.setSsetVals(res.T, vals)
+}
+
+func (f *frame) setSsetVals(t string, vals map[string][]string) {
+	if f.ssetVals == nil {
+		f.ssetVals = map[string]map[string][]string{}
+	}
+	f.ssetVals[t] = vals
+}
+
+func mergeVals(dst map[string][]string, src map[string][]string) {
+	for k, vs := range src {
+		for _, v := range vs {
+			dup := false
+			for _, o := range dst[k] {
+				if o == v {
+					dup = true
+				}
+			}
+			if !dup {
+				dst[k] = append(dst[k], v)
+			}
+		}
+	}
+}
+
+// ssetElementsFact: what the abstraction knows about the elements of a tracked slice, as a formula:
+// every element is one of the values recorded under a key whose membership condition holds. Sound
+// because tracked slices are built from literals, append and phis only (no element is overwritten:
+// a function that stores into a []string element after construction is not tracked, see untrackIfWritten).
+func (f *frame) ssetElementsFact(sl Val, h *Heap) (string, bool) {
+	set, ok := f.sset[sl.T]
+	vals, ok2 := f.ssetVals[sl.T]
+	if !ok || !ok2 || f.stringSliceWritten() {
+		return "", false
+	}
+	g := f.g
+	ea := g.arr(h, elemArrName("Str"), "(Array Int Str)")
+	elem := fmt.Sprintf("(select (select %s (s-arr %s)) (slot (s-off %s) q!e))", ea, sl.T, sl.T)
+	var ks []string
+	for k := range set {
+		ks = append(ks, k)
+	}
+	sort.Strings(ks)
+	var alts []string
+	for _, k := range ks {
+		if len(vals[k]) == 0 {
+			return "", false
+		}
+		for _, v := range vals[k] {
+			alts = append(alts, fmt.Sprintf("(and %s (= %s %s))", set[k], elem, v))
+		}
+	}
+	if len(alts) == 0 {
+		return fmt.Sprintf("(= (s-len %s) 0)", sl.T), true
+	}
+	return fmt.Sprintf("(forall ((q!e Int)) (=> (and (<= 0 q!e) (< q!e (s-len %s))) (or %s)))", sl.T, strings.Join(alts, " ")), true
+}
+
+// stringSliceWritten: the function stores into an element of a []string through an index on a slice
+// (as opposed to initialising the backing array of a literal).
+func (f *frame) stringSliceWritten() bool {
+	if f.strSliceWritten != nil {
+		return *f.strSliceWritten
+	}
+	w := false
+	for _, b := range f.fn.Blocks {
+		for _, in := range b.Instrs {
+			ia, ok := in.(*ssa.IndexAddr)
+			if !ok {
+				continue
+			}
+			if !isStringSlice(ia.X.Type()) {
+				continue
+			}
+			for _, r := range *ia.Referrers() {
+				if st, ok := r.(*ssa.Store); ok && st.Addr == ia {
+					w = true
+				}
+			}
+		}
+	}
+	f.strSliceWritten = &w
+	return w
 }
 
 func (f *frame) ssetAppend(c *ssa.CallCommon, args []Val, res Val) {
@@ -117,6 +203,10 @@ func (f *frame) ssetAppend(c *ssa.CallCommon, args []Val, res Val) {
 		set[k] = or(set[k], v)
 	}
 	f.sset[res.T] = set
+	vals := map[string][]string{}
+	mergeVals(vals, f.ssetVals[args[0].T])
+	mergeVals(vals, f.ssetVals[args[1].T])
+	f.setSsetVals(res.T, vals)
 }
 
 func (f *frame) ssetPhi(phi *ssa.Phi, res Val, conds, vals []string) {
@@ -146,6 +236,11 @@ func (f *frame) ssetPhi(phi *ssa.Phi, res Val, conds, vals []string) {
 		set[k] = iteChain(conds, cs)
 	}
 	f.sset[res.T] = set
+	mv := map[string][]string{}
+	for _, t := range vals {
+		mergeVals(mv, f.ssetVals[t])
+	}
+	f.setSsetVals(res.T, mv)
 }
 
 // trAdv implements the spec builtins adv(slice, "key") and advOnly(slice, "k1|k2|...").
